@@ -107,7 +107,7 @@ var panicTable = map[string]string{
 	"eval.(*State).Eval | max depth %d reached":                                                        "GUARD: documented recursion-depth guard, recovered in repl.EvalOne",
 	"object.MustBeOk | would exceed memory requesting %d objects, %d free":                             "GUARD: documented memory-budget guard, recovered in repl.EvalOne",
 	"object.(*Environment).MakeRegister | No more registers available for %s (%d) have %v":             "unreachable: setupRegister, its only caller, tests HasRegisters() first (C05.R2)",
-	"object.(*Environment).ReleaseRegister | Releasing non last register %s %d != %d":                  "unreachable: registers are released by a defer placed right after the acquire, hence in LIFO order (C05.R1)",
+	"object.(*Environment).ReleaseRegister | Releasing non last register %s %d != %d":                  "unreachable: registers are released by a defer placed right after the acquire, hence in LIFO order (C05.R1), and only a register that was acquired is released (C05.R8)",
 	"object.Cmp | Unexpected type in Cmp: ":                                                            "unreachable: REFERENCE/REGISTER are removed by Value() before the tags are read (C12.R4)",
 	"object.Cmp | Unexpected type in Cmp: %s":                                                          "unreachable for program values: RETURN/MACRO/UNKNOWN/ANY (C12.R4)",
 	"object.Value | Too many references":                                                               "unreachable: makeRef stores the original reference, never a reference to a reference, so chains have length 1",
@@ -301,6 +301,27 @@ func runC07(c *Ctx, r *Report) {
 	// ---- R8 ----
 	c.checkEnvDepthInvariant(r)
 
+	// shared: the register typestate rules the panic table relies on for MakeRegister / ReleaseRegister
+	r.Rule("C05.R1", "(shared) every acquired register is released on every exit (defer right after the acquire: LIFO order)")
+	r.Rule("C05.R2", "(shared) MakeRegister only under HasRegisters()")
+	r.Rule("C05.R8", "(shared) ReleaseRegister only receives a register that was acquired")
+	{
+		sub := NewReport("C05", r.Tier, c)
+		runC05(c, sub)
+		for _, o := range sub.Obls {
+			if o.Rule != "C05.R1" && o.Rule != "C05.R2" && o.Rule != "C05.R8" {
+				continue
+			}
+			if o.status == FAIL {
+				r.Fail(o.Rule, o.Func, o.Desc, o.Pos, o.Reason, o.Path...)
+			} else {
+				r.Ok(o.Rule, o.Func, o.Desc, o.Pos)
+			}
+		}
+		r.Floor("C05.R1", 2)
+		r.Floor("C05.R2", 1)
+		r.Floor("C05.R8", 1)
+	}
 	r.Rule("C05.R4", "(shared) assertions inside ast.Modify on rewriter results")
 	c.checkModifyAssertions(r, "C05.R4")
 	// shared: Hashable
